@@ -4,7 +4,7 @@ import os
 from collections import Counter
 from . import common as c
 
-C04_TAGS = {"TEMPLATE", "EMPTY_NAME", "RESERVED", "ILLEGAL_STRUCT", "DUP_STRUCT", "SHADOW", "ILLEGAL_FIELD", "DUP_FIELD",
+C04_TAGS = {"TEMPLATE", "LAYOUT", "EMPTY_NAME", "RESERVED", "ILLEGAL_STRUCT", "DUP_STRUCT", "SHADOW", "ILLEGAL_FIELD", "DUP_FIELD",
             "UNRESOLVED", "USECOUNT"}
 C14_TAGS = {"NAME_SHAPE", "NEEDLESS_QUALIFICATION", "FIRST_NOT_ROOT", "STRUCT_COUNT"}
 C09_TAGS = {"FIELD_ORDER", "STRUCT_ORDER", "SORT_CHANGES_MORE", "STRUCT_COUNT"}
